@@ -2,7 +2,7 @@
    Only statements closed by [exact]; the lemmas live in Proofs/Stores.v, the executable
    models (memory store, OCI layout store, abstract specification) in Model/Stores.v. *)
 From Oras Require Import Base.Prelude Generated.GC06 Model.Stores Model.StoresConc Model.StoresConcOci Model.StoresConcFile
-     Proofs.Stores Proofs.StoresConc Proofs.StoresConcOci Proofs.StoresConcOci2 Proofs.StoresConcFile Proofs.StoresFile.
+     Proofs.Stores Proofs.StoresConc Proofs.StoresConcOci Proofs.StoresConcOci2 Proofs.StoresConcFile Proofs.StoresFile Proofs.StoresConcFileGraph.
 From Coq Require Import Permutation.
 
 (* For every history, the memory store (cas.Memory + resolver.Memory + graph.Memory)
@@ -262,7 +262,7 @@ Proof. exact ox_quiescent. Qed.
    IgnoreNoName, DisableOverwrite) and EVERY schedule run to completion, names,
    digestToPath, files, fallback storage and resolver are literally those of a sequential
    order of the same operations in program order, so every Fetch, Exists and Resolve
-   answers alike.  Partial: the graph (Predecessors) is not compared; programs use neither
+   answers alike.  Partial: the graph (Predecessors) is in the next theorem; programs use neither
    the aliasing name (two names, two locks, one file) nor titled successors (with those the
    restore step falls behind the store and executions are not serialisable in general). *)
 Theorem C06_quiescent_serialisable_file_partial :
@@ -280,6 +280,32 @@ Theorem C06_quiescent_serialisable_file_partial :
                 snd (file_step fx ig ov (fc_store cf) (Resolve r)) = snd (file_step fx ig ov q (Resolve r)).
 Proof. exact quiescent_serialisable_file. Qed.
 Print Assumptions C06_quiescent_serialisable_file_partial.
+
+(* ... and the graph: with the repaired pushFile, store and graph.Index as separate atomic
+   steps, collision-free bytes B, EVERY schedule run to completion ends with the core state
+   and the Predecessors answers (as sets) of the sequential execution in commit order.
+   Programs use neither the aliasing name nor titled successors (see above). *)
+Theorem C06_quiescent_serialisable_file_graph :
+  forall (B : N -> blob) (ig ov : bool) (progs : list (list op)) (sched : list nat),
+  Forall (good_op B) (concat progs) ->
+  let cf := fconf_run true ig ov (fconf_init progs) sched in
+  fquiescent cf = true ->
+  exists order : list (nat * op),
+    Permutation (map snd order) (concat progs) /\
+    (forall i, log_of i order = nth i progs []) /\
+    let q := fst (runf (file_step true ig ov) file_init (map snd order)) in
+    fcore (fc_store cf) = fcore q /\
+    forall n k, In k (map gk (g_predecessors n (f_graph (fc_store cf)))) <->
+                In k (map gk (g_predecessors n (f_graph q))).
+Proof. exact quiescent_serialisable_file_graph. Qed.
+Print Assumptions C06_quiescent_serialisable_file_graph.
+
+Example C06_ex_file_graph_conc_good : Forall (good_op fgx_B) (concat fgc_progs).
+Proof. exact fgc_good. Qed.
+Example C06_ex_file_graph_conc_run :
+  let cf := fconf_run true false false (fconf_init fgc_progs) fgc_sched in
+  fquiescent cf = true /\ map gk (g_predecessors w_layer (f_graph (fc_store cf))) = [(1, 9, 20)].
+Proof. exact fgc_quiescent. Qed.
 
 Example C06_ex_file_quiescent : fquiescent (fconf_run true false false (fconf_init fx_progs) fx_sched) = true.
 Proof. exact fx_quiescent. Qed.
